@@ -46,6 +46,85 @@ theorem fileName_none_iff_100_rejections {U : Char → Bool} {lower : Str → St
       ∀ k, k ≤ 99 → accept k (lower (candidate U name pre suf k)) = false :=
   fileName_none
 
+/-! ## portability of the returned name -/
+
+/-- one path component: non-empty, not `.`/`..`, none of the 14 banned characters (so neither `/` nor
+    `\`), no control character — for both affix pairs norad uses and every valid name -/
+theorem fileName_single_component {U : Char → Bool} {lower : Str → Str} {name pre suf p : Str}
+    {accept : Nat → Str → Bool} (hw : Wrapper pre suf) (hv : ValidName name)
+    (h : userNameToFileName U lower name pre suf accept = some p) : SingleComponent p := by
+  obtain ⟨k, _, hp, _, _⟩ := fileName_some h
+  have hlen := candidate_wrapper_length (U := U) (name := name) hw k
+  rw [← hp] at hlen
+  have hg := candidate_good (U := U) (k := k) hv.2 (wrapper_good hw).1 (wrapper_good hw).2
+  rw [← hp] at hg
+  refine ⟨?_, ?_, ?_, hg⟩ <;> intro he <;> rw [he] at hlen <;> simp at hlen
+
+/-- the result never starts with a period (glif files; for layer directories it starts with `g`) -/
+theorem fileName_no_leading_period {U : Char → Bool} {lower : Str → Str} {name pre suf p : Str}
+    {accept : Nat → Str → Bool} (hw : Wrapper pre suf) (hv : ValidName name)
+    (h : userNameToFileName U lower name pre suf accept = some p) : NoLeadingPeriod p := by
+  obtain ⟨k, _, hp, _, _⟩ := fileName_some h
+  unfold NoLeadingPeriod
+  rcases hw with ⟨h1, h2⟩ | ⟨h1, h2⟩ <;> subst h1 <;> subst h2
+  · obtain ⟨x, hx, hx'⟩ := glif_head (U := U) hv.1 k
+    rw [hp, hx]; intro he; injection he with he; exact hx' he
+  · obtain ⟨t, ht⟩ := layer_glyphs U name k
+    rw [hp, ← ht]; simp
+
+/-- the result never ends with a period or a space — for **every** prefix, every name and every suffix
+    that does not itself end so (norad's suffixes are `.glif` and the empty string) -/
+theorem fileName_no_trailing_period_or_space {U : Char → Bool} {lower : Str → Str}
+    {name pre suf p : Str} {accept : Nat → Str → Bool}
+    (hs : ∀ x, suf.getLast? = some x → x ≠ '.' ∧ x ≠ ' ')
+    (h : userNameToFileName U lower name pre suf accept = some p) : NoTrailingPeriodOrSpace p := by
+  obtain ⟨k, _, hp, _, _⟩ := fileName_some h
+  have hs' : ∀ x, suf.getLast? = some x → isDotSp x = false := by
+    intro x hx; have := hs x hx; simp [isDotSp, this.1, this.2]
+  have := candidate_last (U := U) (name := name) (pre := pre) (k := k) hs'
+  rw [← hp] at this
+  constructor <;> intro he <;> have := this _ he <;> simp [isDotSp] at this
+
+/-- the suffix is always carried, whatever the affixes -/
+theorem fileName_suffix {U : Char → Bool} {lower : Str → Str} {name pre suf p : Str}
+    {accept : Nat → Str → Bool}
+    (h : userNameToFileName U lower name pre suf accept = some p) : suf <:+ p := by
+  obtain ⟨k, _, hp, _, _⟩ := fileName_some h
+  rw [hp]; exact candidate_suffix U name pre suf k
+
+/- `fileName_affixes` (FULL STATEMENT, FALSE on the tree for the layer wrapper — recorded finding
+   `layer-prefix-eaten`): ∀ valid name, Wrapper pre suf → … = some p → HasAffixes pre suf p.
+   The trailing-run replacement (util.rs:128-138) does not stop at the prefix. -/
+
+/-- glif files carry `.glif`; layer directories carry `glyphs.` whenever the layer name does not
+    start with a period or a space -/
+theorem fileName_affixes_partial {U : Char → Bool} {lower : Str → Str} {name pre suf p : Str}
+    {accept : Nat → Str → Bool} (hw : Wrapper pre suf)
+    (hguard : pre = [] ∨ ∃ c cs, name = c :: cs ∧ c ≠ '.' ∧ c ≠ ' ')
+    (h : userNameToFileName U lower name pre suf accept = some p) : HasAffixes pre suf p := by
+  refine ⟨?_, fileName_suffix h⟩
+  obtain ⟨k, _, hp, _, _⟩ := fileName_some h
+  rcases hguard with h1 | ⟨c, cs, hn, hc1, hc2⟩
+  · subst h1; exact List.nil_prefix
+  · rcases hw with ⟨h1, h2⟩ | ⟨h1, h2⟩ <;> subst h1 <;> subst h2
+    · exact List.nil_prefix
+    · subst hn; rw [hp]
+      exact layer_prefix_kept (by simp [isDotSp, hc1, hc2]) k
+
+/-- …and even then the six letters `glyphs` are there -/
+theorem fileName_layer_glyphs {U : Char → Bool} {lower : Str → Str} {name p : Str}
+    {accept : Nat → Str → Bool}
+    (h : userNameToFileName U lower name layerPrefix [] accept = some p) :
+    ['g', 'l', 'y', 'p', 'h', 's'] <+: p := by
+  obtain ⟨k, _, hp, _, _⟩ := fileName_some h
+  rw [hp]; exact layer_glyphs U name k
+
+/-- layer name `" "` (valid) gets the directory `glyphs__` -/
+theorem fileName_affixes_layer_counterexample :
+    ∃ p, layerDirName (fun _ => false) id [' '] [] = some p ∧ ValidName [' '] ∧
+      ¬ HasAffixes layerPrefix [] p := by
+  refine ⟨['g', 'l', 'y', 'p', 'h', 's', '_', '_'], ?_, ?_, ?_⟩ <;> decide +kernel
+
 /-! ## termination of the char-boundary back-off -/
 
 /-- `while !is_char_boundary(b) { b -= 1 }` started inside the string stops after at most 3 steps
@@ -66,6 +145,27 @@ theorem truncate_after_backoff (s : Str) (n : Nat) :
 /- `fileName_len_255` (FULL STATEMENT, FALSE on the tree — recorded finding `clash-counter-257`):
    ∀ valid name, userNameToFileName … name [] ".glif" accept = some p → Len255 p.
    util.rs:151 compares `len - suffix_len + 2` with 255, which never fires for ".glif". -/
+
+/-- at most 255 bytes whenever the first candidate is accepted **or** the suffix is empty (layer
+    directories), and never more than 257 — for every prefix, every suffix of at most 255 bytes and
+    every string `name` -/
+theorem fileName_len_255_partial {U : Char → Bool} {lower : Str → Str} {name pre suf p : Str}
+    {accept : Nat → Str → Bool} (hs : utf8Len suf ≤ 255)
+    (h : userNameToFileName U lower name pre suf accept = some p) :
+    utf8Len p ≤ 257 ∧
+    (accept 0 (lower (candidate U name pre suf 0)) = true ∨ suf = [] → Len255 p) := by
+  obtain ⟨k, _, hp, _, hrej⟩ := fileName_some h
+  have hl := candidate_len (U := U) (name := name) (pre := pre) (k := k) (suf := suf) hs
+  rw [← hp] at hl
+  refine ⟨hl.1, fun hg => ?_⟩
+  rcases hg with hg | hg
+  · have hk : k = 0 := by
+      cases k with
+      | zero => rfl
+      | succ n => have := hrej 0 (by omega); rw [hg] at this; cases this
+    subst hk; rw [hp]
+    exact candidate_zero_len (U := U) (name := name) (pre := pre) hs
+  · exact hl.2 hg
 
 /-- 250 × `a`, first candidate taken: the counter makes a 257-byte `.glif` name -/
 theorem fileName_len_255_counterexample :
